@@ -461,3 +461,17 @@ Proof.
   intro Hin. unfold view_rows. destruct (sorted_fixed_ok vty vlt vrepr v) as (l & -> & Hp).
   apply in_map_iff. exists (sc, c). split; [reflexivity|]. eapply Permutation_in; eassumption.
 Qed.
+
+(** Non-vacuity of the console statement: a section-ordered run with a render in between; the stale
+    section is printed complete once and skipped by the final rendering, yet its last printing is final. *)
+Example nonvacuous_console :
+  let evs := [EvTotal (0%nat, [1%nat]) 1; EvRunning (0%nat, [1%nat]) 1; EvCompleted (0%nat, [1%nat]) 2; EvRender 3 3;
+              EvTotal (1%nat, [2%nat]) 2; EvRunning (1%nat, [2%nat]) 4; EvFailed (1%nat, [2%nat]) 5] in
+  wf_evs true (rev evs) = true /\
+  match observe output (render (fun _ => 0%nat) (fun _ _ => None) (fun x => x) Console true) 0 0 evs 6 6 with
+  | Ok (o, outs) => map (map fst) outs = [[1%nat]; [0%nat]] /\ o_skipped o = [0%nat] /\
+                    option_map (map strip) (last_printed 0%nat outs) =
+                      Some [(Some [1%nat], {| ps_paren := false; ps_c := 1; ps_r := 0; ps_t := 1; ps_f := 0 |})]
+  | Err _ => False
+  end.
+Proof. vm_compute. repeat split. Qed.
